@@ -85,6 +85,25 @@ def check(chk):
     _c02._start_wait_taken_only_when_starting(chk)
     from sa.helpers import unload_cleanup_unconditional
     unload_cleanup_unconditional(chk, "PAIR-8")
+    # a built-in mode that registers switch handlers itself removes exactly those when it stops: the tilt mode's (switch tag, callback) pairs agree
+    # between _register_switch_handlers and _remove_switch_handlers
+    TLF = "mpf/modes/tilt/code/tilt.py"
+    tcls_ = chk.repo.cls(TLF, "Tilt")
+
+    def _tpairs(fn, api):
+        out = set()
+        for lp in [x for x in walk_local(fn.node) if isinstance(x, ast.For)]:
+            tag = [src(y) for y in ast.walk(lp.iter) if isinstance(y, ast.Subscript) and src(y.value) == "self.tilt_config"]
+            for c in ast.walk(lp):
+                if isinstance(c, ast.Call) and call_attr(c) in api:
+                    cb = kwarg(c, "callback")
+                    out.add((tag[0] if tag else None, src(cb) if cb is not None else None))
+        return out
+    reg_, rem_ = tcls_.methods["_register_switch_handlers"], tcls_.methods["_remove_switch_handlers"]
+    chk.analysed(reg_, rem_)
+    pr_, pm_ = _tpairs(reg_, {"add_switch_handler_obj", "add_switch_handler"}), _tpairs(rem_, {"remove_switch_handler", "remove_switch_handler_obj"})
+    chk.ob("PAIR-9", "the tilt mode removes exactly the (switch tag, callback) pairs it registered", pr_ == pm_ and len(pr_) >= 3, rem_.where(),
+           detail="registered %s, removed %s" % (sorted(map(str, pr_)), sorted(map(str, pm_))), construct=rem_.ident, text="tilt switch handler pairs")
     # the start callback belongs to one start request: every accepted start stores the callback it was given (None included), so a callback of
     # an earlier cycle cannot fire for a later start
     stf = chk.repo.func(MD, "Mode.start")
@@ -759,6 +778,7 @@ def battery():
     from sa.battery import M
     EP = "mpf/config_players/event_player.py"
     return [
+        M("slam tilt handler looked up under the tilt tag on removal", "mpf/modes/tilt/code/tilt.py", "                self.tilt_config['slam_tilt_switch_tag']):\n            self.machine.switch_controller.remove_switch_handler(", "                self.tilt_config['tilt_switch_tag']):\n            self.machine.switch_controller.remove_switch_handler(", "PAIR-9"),
         M("start callback kept when a later start gives none", MD, "        self.start_callback = callback\n", "        if callback:\n            self.start_callback = callback\n", "PAIR-8"),
         M("sequence shot keeps its half-finished sequences on unload", "mpf/devices/sequence_shot.py", "        self._remove_handlers()\n        self.reset_all_sequences()\n        self.delay.clear()", "        self._remove_handlers()\n        self.delay.clear()", "PAIR-8"),
         M("combo switch forgets its delays by name", "mpf/devices/combo_switch.py", "    def _kill_delays(self):\n        self.delay.clear()", "    def _kill_delays(self):\n        for group in (1, 2):\n            self.delay.remove('switch_{}_active'.format(group))\n            self.delay.remove('switch_{}_inactive'.format(group))", "PAIR-8"),
